@@ -14,6 +14,7 @@ try:
     replay.build(r, 'c31', deps=('erg_common',))
     replay.build(r, 'c06')
     replay.build(r, 'c03')
+    replay.build(r, 'c24')
     print("setup: replay binaries built")
     from units.C14.cex import build_erg
     build_erg(r)     # the compiler binary used by the C14 .pyc structure check (and the line-table replay)
